@@ -33,7 +33,7 @@ type c14Op struct {
 	// expect computes the reference result from the pre-state.
 	expect func(pool map[uint32]string, cfgs [][]uint32) c14Exp
 	// enabled reports whether the operation exists in a state with ncfg configurations.
-	ncfg int
+	ncfg  int
 	group string
 }
 
